@@ -114,6 +114,14 @@ func (w *histWorld) Gen(seed uint64, tier string) *Plan {
 		clients[0].Cursor = 0
 		p.Clients[0] = clients[0].Role
 	}
+	churnAt := -1
+	if !w.count && !big && hugeFill == 0 && cfg.Elem != "float" && cfg.Elem != "any" && cfg.VCmp != "len" && cfg.VCmp != "fold" && r.P(1, 200) {
+		// (not under a coarsened value comparator: the values written on the way would evict pairs by class)
+		churnAt = r.Range(1, nOps-1)
+		if familyOf(cfg.Kind) == "heap" || familyOf(cfg.Kind) == "sq" {
+			nOps = min(nOps, 80) // (their models follow every pair: keep the container small)
+		}
+	}
 	clearAt := -1
 	if w.c15 {
 		clearAt = r.Range(0, nOps-1)
@@ -139,6 +147,10 @@ func (w *histWorld) Gen(seed uint64, tier string) *Plan {
 		}
 		var op Op
 		switch {
+		case id == churnAt:
+			// a long run of operations that cancel out: only what a container counts over its lifetime grows (past
+			// 4096, past 65 536)
+			op = Op{ID: id, N: "Churn", A: []int{[]int{4200, 9000, 32768, 65536, 70000}[r.Intn(5)], r.Intn(1000)}}
 		case id == clearAt:
 			op = Op{ID: id, N: "Clear"}
 		case w.loads && r.P(1, 12):
